@@ -534,31 +534,25 @@ package runtime
 //@   modifies everything()
 //@   exits any
 //@   ensures arg0.goFunctionCallDepth == old(arg0.goFunctionCallDepth)   // calls into the runtime are balanced (this is the property proved for RunInThread below)
+//@   ensures arg1.GoFunction == old(arg1.GoFunction) && arg1.next == old(arg1.next)   // a Go function does not dismantle the continuation it runs in
 
 // Hooks run Lua code through the same gate: balanced as well (assumed).
 //@ func (*DebugHooks).triggerReturn
 //@   trusted
 //@   modifies everything()
 //@   ensures t.goFunctionCallDepth == old(t.goFunctionCallDepth)
+//@   ensures typeis(c, *GoCont) ==> asType(c, *GoCont).GoFunction == old(asType(c, *GoCont).GoFunction) && asType(c, *GoCont).next == old(asType(c, *GoCont).next)
 
-// Pool releases only touch the pool and the released object (C14 verifies them).
-//@ func (*valuePool).release
-//@   prop C14
-//@   trusted
-//@   modifies all(v), heap(valuePool)
-//@ func (*goContPool).release
-//@   prop C14
-//@   trusted
-//@   modifies all(c), heap(goContPool)
 
 //@ func (*GoCont).RunInThread
-//@   prop C08 C04 C11
+//@   prop C08 C04 C11 C14
 //@   arith bv
 //@   requires c != nil && t != nil && t.Runtime != nil && c.GoFunction != nil
 //@   modifies everything()
 //@   exits any
 //@   ensures old(t.requiredFlags) &^ old(c.safetyFlags) != 0 ==> err != nil && next == nil
 //@   ensures t.goFunctionCallDepth == old(t.goFunctionCallDepth)   // on every return, including the depth-limit error (C11: the runtime stays usable after a caught error)
+//@   ensures err != nil ==> c.GoFunction == old(c.GoFunction) && c.next == old(c.next)   // (C14) a continuation whose call failed is still needed by the caller (error context): it is not recycled
 
 // Declaring compliance only ever adds defined flags.
 //@ func (*GoFunction).SolemnlyDeclareCompliance
@@ -1033,3 +1027,99 @@ package runtime
 //@   ensures old(e.lineno) != 0 || old(e.handled) ==> result == e
 //@   ensures !typeis(old(e.message).iface, string) ==> result.message == old(e.message)
 //@   ensures !(old(e.lineno) != 0 || old(e.handled)) ==> fresh(result) && !result.handled && result.lineno != 0
+
+// ---------------------------------------------------------------------------
+// C14: the pools are pure optimisations.  What a client can observe of a pool
+// is stated once and proved for the pooling implementation (default build) and
+// for the pass-through implementation (build tags noregpool / nocontpool):
+// get hands out zeroed storage of the requested size that the pool no longer
+// holds; release forgets nothing the client can see.
+// ---------------------------------------------------------------------------
+
+//@ macro cellPoolOK(p) = (len(p.cells) == regPoolSize && len(p.exps) == regPoolSize && forall(i, 0, regPoolSize, forall(j, 0, len(p.cells[i]), p.cells[i][j].ref == nil)) && forall(i, 0, regPoolSize, forall(j, 0, regPoolSize, i != j && len(p.cells[i]) > 0 ==> p.cells[i] != p.cells[j])))
+//@ macro valuePoolOK(p) = (len(p.values) == regPoolSize && len(p.exps) == regPoolSize && forall(i, 0, regPoolSize, forall(j, 0, len(p.values[i]), p.values[i][j] == NilValue)) && forall(i, 0, regPoolSize, forall(j, 0, regPoolSize, i != j && len(p.values[i]) > 0 ==> p.values[i] != p.values[j])))
+
+//@ func (*cellPool).get
+//@   prop C14
+//@   arith int
+//@   requires p != nil && cellPoolOK(p) && 0 <= sz && sz < 1000000
+//@   modifies p.gen, all(p.cells), all(p.exps)
+//@   ensures len(result) == sz && forall(j, 0, sz, result[j].ref == nil)
+//@   ensures sz > 0 ==> forall(i, 0, regPoolSize, p.cells[i] != result)   // what is handed out is no longer in the pool
+//@   ensures cellPoolOK(p)
+//@   loop 1: invariant 0 <= i && i <= regPoolSize
+//@   loop 1: invariant cellPoolOK(p)
+//@   loop 1: invariant forall(k, 0, i, len(p.cells[k]) != sz)
+//@   loop 1: invariant forall(k, 0, regPoolSize, p.cells[k] == old(p.cells[k]))
+
+//@ func (*cellPool).release
+//@   prop C14
+//@   arith int
+//@   requires p != nil && cellPoolOK(p) && forall(i, 0, regPoolSize, len(c) > 0 ==> p.cells[i] != c)
+//@   modifies all(c), all(p.cells), all(p.exps)
+//@   ensures cellPoolOK(p)
+//@   loop 1: invariant 0 <= i && i <= regPoolSize && cellPoolOK(p)
+//@   loop 2: invariant 0 <= rangeindex + 1 && rangeindex < len(c) && forall(j, 0, rangeindex + 1, c[j].ref == nil) && cellPoolOK(p)
+
+//@ func (*valuePool).get
+//@   prop C14
+//@   arith int
+//@   requires p != nil && valuePoolOK(p) && 0 <= sz && sz < 1000000
+//@   modifies p.gen, all(p.values), all(p.exps)
+//@   ensures len(result) == sz && forall(j, 0, sz, result[j] == NilValue)
+//@   ensures sz > 0 ==> forall(i, 0, regPoolSize, p.values[i] != result)   // what is handed out is no longer in the pool
+//@   ensures valuePoolOK(p)
+//@   loop 1: invariant 0 <= i && i <= regPoolSize && valuePoolOK(p) && forall(k, 0, i, len(p.values[k]) != sz)
+
+//@ func (*valuePool).release
+//@   prop C14
+//@   arith int
+//@   requires p != nil && valuePoolOK(p) && forall(i, 0, regPoolSize, len(v) > 0 ==> p.values[i] != v)
+//@   modifies all(v), all(p.values), all(p.exps)
+//@   ensures valuePoolOK(p)
+//@   loop 1: invariant 0 <= i && i <= regPoolSize && valuePoolOK(p)
+//@   loop 2: invariant 0 <= rangeindex + 1 && rangeindex < len(v) && forall(j, 0, rangeindex + 1, v[j] == NilValue) && valuePoolOK(p)
+
+// The continuation pool: a stack of zeroed continuations.
+//@ macro goContPoolOK(p) = (0 <= p.next && p.next <= goContPoolSize && forall(i, 0, p.next, p.conts[i] != nil && *p.conts[i] == GoCont{}) && forall(i, 0, p.next, forall(j, 0, p.next, i != j ==> p.conts[i] != p.conts[j])))
+
+//@ func (*goContPool).get
+//@   prop C14
+//@   arith int
+//@   requires p != nil && goContPoolOK(p)
+//@   modifies p.next, p.conts
+//@   ensures result != nil && *result == GoCont{}
+//@   ensures goContPoolOK(p) && forall(i, 0, p.next, p.conts[i] != result)
+//@   ensures p.next == spec.max(old(p.next) - 1, 0)
+
+//@ func (*goContPool).release
+//@   prop C14
+//@   arith int
+//@   requires p != nil && goContPoolOK(p) && c != nil && forall(i, 0, p.next, p.conts[i] != c)
+//@   modifies all(c), p.next, p.conts
+//@   ensures *c == GoCont{}
+//@   ensures goContPoolOK(p)
+
+// Pass-through implementations (other builds).
+//@ func (cellPool).get
+//@   prop C14
+//@   build noregpool
+//@   arith int
+//@   requires 0 <= sz && sz < 1000000
+//@   modifies nothing
+//@   ensures len(result) == sz && forall(j, 0, sz, result[j].ref == nil)
+
+//@ func (valuePool).get
+//@   prop C14
+//@   build noregpool
+//@   arith int
+//@   requires 0 <= sz && sz < 1000000
+//@   modifies nothing
+//@   ensures len(result) == sz && forall(j, 0, sz, result[j] == NilValue)
+
+//@ func (goContPool).get
+//@   prop C14
+//@   build nocontpool
+//@   arith int
+//@   modifies nothing
+//@   ensures result != nil && *result == GoCont{}
